@@ -41,9 +41,10 @@ func init() { lib.Register("C16", run) }
 // ---- replayable inputs ----
 
 type caseInput struct {
-	Kind   string `json:"kind"` // "roundtrip" | "asblock" | "decode"
+	Kind   string `json:"kind"` // "roundtrip" | "asblock" | "hand" | "decode"
 	Type   string `json:"type"`
 	VSeed  uint64 `json:"vseed,omitempty"`  // roundtrip / asblock: the value is regenerated from this seed
+	Hand   int    `json:"hand,omitempty"`   // hand: index into handValues
 	Value  string `json:"value,omitempty"`  // human-readable rendering of the value (not used by replay)
 	Syntax string `json:"syntax,omitempty"` // decode: "hcl" | "json"
 	Ctx    int    `json:"ctx,omitempty"`    // decode: 0 nil, 1 empty, 2 variables+functions, 3 also a marked variable
@@ -178,7 +179,8 @@ func (r *diffKeyReporter) Report(rs cmp.Result) {
 			if parent.Kind() == reflect.Struct {
 				for _, fi := range fieldsOf(parent) {
 					if fi.idx == sf.Index() {
-						kind = [...]string{"untagged", "attr", "label", "block", "remain", "body"}[fi.kind]
+						// a field without hcl tag on the path is a field of a gocty object struct
+						kind = [...]string{"object-field", "attr", "label", "block", "remain", "body"}[fi.kind]
 					}
 				}
 			}
@@ -547,8 +549,7 @@ func firstError(diags hcl.Diagnostics) string {
 	return ""
 }
 
-// findString reports whether pred holds for some string (attribute value, map key, label, cty string or
-// attribute name) inside v; forKeys restricts the search to map / object keys.
+// findKey reports whether pred holds for the key set of some map (Go map, cty map or cty object) inside v.
 func findKey(v reflect.Value, pred func(keys []string) bool) bool {
 	t := v.Type()
 	if t == ctyValueType {
@@ -738,14 +739,43 @@ func decodeAndCompare(cx *lib.Ctx, in string, how string, ti reflect.Type, want 
 	return true
 }
 
-// roundTrip runs the whole property on one value. wrap != "" checks gohcl.EncodeAsBlock directly: the value
-// is encoded as a block of that type and decoded through a one-field wrapper struct.
+// roundTrip runs the whole property on the value generated from vseed. asBlock checks gohcl.EncodeAsBlock
+// directly: the value is encoded as a block "blk" and decoded through a one-field wrapper struct.
 func roundTrip(cx *lib.Ctx, ti typeInfo, vseed uint64, asBlock bool, stats map[string]int) (canon string, nontrivial bool) {
-	orig := newValue(ti, lib.NewRand(vseed), stats)
-	want := newValue(ti, lib.NewRand(vseed), nil)
+	return roundTripOf(cx, ti, func(st map[string]int) reflect.Value { return newValue(ti, lib.NewRand(vseed), st) }, caseInput{Kind: "roundtrip", VSeed: vseed}, asBlock, stats)
+}
+
+// handValues are values kept because they exercise one specific path each (every known finding has one, so
+// that it is reported by every run, not only when the random stream happens to reach it).
+var handValues = []struct {
+	typ string
+	mk  func() interface{}
+}{
+	{"Collections", func() interface{} { return &Collections{L: []string{"x"}, M: map[string]string{"for": "x", "if": "y"}} }},
+	{"Collections", func() interface{} { return &Collections{L: []string{}, M: map[string]string{"\ufeffa": "x"}} }},
+	{"Scalars", func() interface{} { return &Scalars{S: "\ufeffx"} }},
+	{"Scalars", func() interface{} { return &Scalars{S: "\r$${"} }},
+	{"Dynamic", func() interface{} {
+		return &Dynamic{V: cty.NumberFloatVal(1e23), OV: cty.NullVal(cty.DynamicPseudoType)}
+	}},
+	{"RemainAttrs", func() interface{} { return &RemainAttrs{Name: "n", Blk: []Inner{{Name: "a"}}} }},
+	{"Scalars", func() interface{} {
+		return &Scalars{S: "plain \"quoted\" ${not} %{not} $${x} \\ \n\t é 日本 \x00", I: -1, I8: -128, U64: 1<<64 - 1, F: 0.1, F32: 0.1, B: true}
+	}},
+	{"Labelled", func() interface{} {
+		return &Labelled{Ones: []L1{{Name: "a"}, {Name: "a"}, {Name: ""}}, Twos: []*L2{{Type: "for", Name: "${x}", Sub: []L1{{Name: "s", V: "v"}}}, nil}, Req: L2{Type: "t", Name: "n"}}
+	}},
+	{"Blocks", func() interface{} { return &Blocks{} }},
+}
+
+func roundTripOf(cx *lib.Ctx, ti typeInfo, mk func(stats map[string]int) reflect.Value, ci caseInput, asBlock bool, stats map[string]int) (canon string, nontrivial bool) {
+	orig := mk(stats)
+	want := mk(nil)
 	normalise(want.Elem())
+	vseed := ci.VSeed + uint64(ci.Hand)*7919
 	aux := lib.NewRand(vseed ^ 0x5bd1e995)
-	ci := caseInput{Kind: "roundtrip", Type: ti.name, VSeed: vseed, Value: lib.Trunc(describe(orig.Elem()), 4000)}
+	ci.Type = ti.name
+	ci.Value = lib.Trunc(describe(orig.Elem()), 4000)
 	decT := ti.t
 	if asBlock {
 		ci.Kind = "asblock"
@@ -1030,6 +1060,15 @@ func replay(cx *lib.Ctx) {
 		return
 	}
 	switch ci.Kind {
+	case "hand":
+		if ci.Hand < 0 || ci.Hand >= len(handValues) {
+			cx.Res.Fail(lib.Failure{Kind: "oracle", Key: "replay-input", Desc: "no such hand value", Input: raw})
+			return
+		}
+		h := handValues[ci.Hand]
+		canon, nt := roundTripOf(cx, ti, func(map[string]int) reflect.Value { return reflect.ValueOf(h.mk()) }, caseInput{Kind: "hand", Hand: ci.Hand}, false, nil)
+		cx.Res.Case(canon, nt)
+		cx.Res.Sample(canon)
 	case "roundtrip", "asblock":
 		canon, nt := roundTrip(cx, ti, ci.VSeed, ci.Kind == "asblock", nil)
 		cx.Res.Case(canon, nt)
@@ -1060,7 +1099,14 @@ func run(cx *lib.Ctx) {
 	}
 
 	// A. round trips
-	n := cx.Scale(4500, 120000)
+	for hi, h := range handValues {
+		h := h
+		ti, _ := typeByName(h.typ)
+		canon, nt := roundTripOf(cx, ti, func(map[string]int) reflect.Value { return reflect.ValueOf(h.mk()) }, caseInput{Kind: "hand", Hand: hi}, false, nil)
+		res.Case(canon, nt)
+		res.Count("roundtrip:hand-corpus")
+	}
+	n := cx.Scale(4000, 100000)
 	weights := make([]int, len(family))
 	for i, ti := range family {
 		weights[i] = 10
@@ -1109,7 +1155,7 @@ func run(cx *lib.Ctx) {
 		ti, _ := typeByName(h.typ)
 		ill(ti, h.syntax, h.src, h.ctx, "hand-corpus")
 	}
-	nc := cx.Scale(2200, 50000)
+	nc := cx.Scale(2000, 40000)
 	for i := 0; i < nc && !(i%64 == 0 && overBudget("ill-formed contents")); i++ {
 		r := cx.R.Fork()
 		ti := family[r.Intn(len(family))]
